@@ -91,3 +91,41 @@ class FailingRM:
 
     def tpc_abort(self, txn):
         self.calls.append('tpc_abort')
+
+
+class GrowNode(Node):
+    """a Node whose __getstate__ creates (once) a new persistent child: an object that first exists while its
+    parent is being pickled is stored with it"""
+
+    def __getstate__(self):
+        if 'child' not in self.__dict__:
+            self.__dict__['child'] = Node()
+        return super().__getstate__()
+
+
+class PlainRM:
+    """a resource manager WITHOUT savepoint support"""
+
+    def __init__(self):
+        self.calls = []
+
+    def sortKey(self):
+        return '~plain'
+
+    def abort(self, txn):
+        self.calls.append('abort')
+
+    def tpc_begin(self, txn):
+        pass
+
+    def commit(self, txn):
+        pass
+
+    def tpc_vote(self, txn):
+        pass
+
+    def tpc_finish(self, txn):
+        pass
+
+    def tpc_abort(self, txn):
+        pass
